@@ -58,17 +58,21 @@ Fixpoint pyval_of_sx (x:sx) : option pyval :=
   | _ => None
   end.
 
-(* os.path.expanduser as a table; a text that is not listed is returned unchanged *)
-Definition exptable_of_sx (x:sx) : option (list (str * str)) :=
+(* os.path.expanduser as a table ((text expanded) | (text))...): a one-element entry (text) says that expanduser raised
+   ValueError for that text; a text that is not listed is returned unchanged *)
+Definition exptable_of_sx (x:sx) : option (list (str * option str)) :=
   match x with
-  | SL l => all_some (map (fun e => match e with SL [SA a; SA b] => Some (a, b) | _ => None end) l)
+  | SL l => all_some (map (fun e => match e with
+                                    | SL [SA a; SA b] => Some (a, Some b)
+                                    | SL [SA a] => Some (a, None)
+                                    | _ => None end) l)
   | _ => None
   end.
-Fixpoint lookup_exp (t:list (str * str)) (s:str) : str :=
-  match t with [] => s | (k, v) :: r => if eqs k s then v else lookup_exp r s end.
+Fixpoint lookup_exp (t:list (str * option str)) (s:str) : option str :=
+  match t with [] => Some s | (k, v) :: r => if eqs k s then v else lookup_exp r s end.
 
 (* the two oracle tables: (evaltable exptable) *)
-Definition oracles_of_sx (x:sx) : option ((str -> option Conv.evr) * (str -> str)) :=
+Definition oracles_of_sx (x:sx) : option ((str -> option Conv.evr) * (str -> option str)) :=
   match x with
   | SL [ev; ex] =>
       match EntryConv.evtable_of_sx ev, exptable_of_sx ex with
